@@ -838,6 +838,18 @@ func runScript(t *testing.T, sc scriptJ, w *bufio.Writer) {
 		}
 		corebgp.VerifSetDialHook(r.dialHook)
 		defer corebgp.VerifSetDialHook(nil)
+		// schedule point inside the FSM goroutine, right after the k-th approved
+		// transition of that direction: gate "ent-out#k" / "ent-in#k"
+		corebgp.VerifSetFSMHook(func(remote netip.Addr, outbound bool) {
+			if pl := r.plugins[r.byAddr[remote.String()]]; pl != nil {
+				if outbound {
+					pl.hold("ent-out")
+				} else {
+					pl.hold("ent-in")
+				}
+			}
+		})
+		defer corebgp.VerifSetFSMHook(nil)
 		curRun.Store(r)
 		defer curRun.Store(nil)
 
